@@ -11,6 +11,8 @@ Emitted (all consumed by theories/Geom/*.v, so that changing the code changes th
   bond_type_map_keys2    list Z  (keys of BOND_TYPE_MAP in half units)   rdkit.py
   bond_type_default_is_member  bool  (is the fall-back of BOND_TYPE_MAP.get(order, d) an rdkit BondType?)
   gen_avg_final / gen_scale_factor   generic-carrier expressions of the rescale step   graph_layout.vespr_layout
+  gen_vespr_tail         list of TAlign | TRescale: EVERY statement of vespr_layout after check_and_fix_cis_trans
+  gen_rot_xy             one row of linalg_functions.rotate (matrix literal) about the origin [0, 0]
 """
 import ast
 
@@ -248,17 +250,36 @@ def _arith(e, names):
     raise Unsupported('expression outside the carrier subset: ' + _u(e))
 
 
-def rescale_facts(tree):
-    fn = _fn(tree, 'vespr_layout')
-    args = [a.arg for a in fn.args.args]
-    if args[:2] != ['graph', 'default_bond']:
-        raise Unsupported('vespr_layout arguments %r' % args)
-    body = _strip_doc(fn.body)
-    # the last five statements are the rescale step
-    tail = body[-5:]
-    if len(tail) != 5:
-        raise Unsupported('vespr_layout too short')
-    init, loop, fin, upd, ret = tail
+ALIGN_BLOCK = ('if align_with is not None:\n'
+               '    pos_arr = np.array(list(pos.values()))\n'
+               '    pos_aligned = rotate_to_axis(pos_arr, align_with)\n'
+               '    for idx, node in enumerate(pos):\n'
+               '        pos[node] = pos_aligned[idx]')
+
+
+def _align_block(st):
+    """the alignment block of vespr_layout (a rigid motion of ALL positions; keys and their order kept)"""
+    if not (isinstance(st, ast.If) and not st.orelse and len(st.body) == 3
+            and isinstance(st.body[0], ast.Assign) and isinstance(st.body[0].targets[0], ast.Name)
+            and isinstance(st.body[1], ast.Assign) and isinstance(st.body[1].targets[0], ast.Name)
+            and isinstance(st.body[2], ast.For)):
+        return False
+    lp = st.body[2]
+    try:
+        tn = _names(lp.target)
+    except Unsupported:
+        return False
+    if len(tn) != 2:
+        return False
+    mp = {st.body[0].targets[0].id: 'pos_arr', st.body[1].targets[0].id: 'pos_aligned', tn[0]: 'idx', tn[1]: 'node'}
+    if len(mp) != 4 or set(mp) & {'pos', 'graph', 'default_bond', 'np', 'align_with', 'rotate_to_axis'}:
+        return False
+    return _ur(st, mp) == ALIGN_BLOCK
+
+
+def _rescale_group(group):
+    """the four statements of the rescale step -> (avg_final, factor) over the generic carrier"""
+    init, loop, fin, upd = group
     if not (isinstance(init, ast.Assign) and isinstance(init.targets[0], ast.Name) and _u(init.value) == '0'):
         raise Unsupported('rescale: ' + _u(init))
     if not (isinstance(loop, ast.For) and isinstance(upd, ast.For) and isinstance(loop.target, ast.Name)
@@ -274,26 +295,115 @@ def rescale_facts(tree):
     if not (isinstance(fin, ast.Assign) and _ur(fin.targets[0], mp) == 'avg_dist'):
         raise Unsupported('rescale: ' + _u(fin))
     avg_final = _arith(_Rename(mp).visit(__import__('copy').deepcopy(fin.value)), {'avg_dist': 'avg_dist'})
-    if not (_ur(upd.iter, mp2) == 'pos' and len(upd.body) == 1
+    if not (_ur(upd.iter, mp2) == 'pos' and len(upd.body) == 1 and not upd.orelse
             and isinstance(upd.body[0], ast.AugAssign) and isinstance(upd.body[0].op, ast.Mult)
             and _ur(upd.body[0].target, mp2) == 'pos[node]'):
         raise Unsupported('rescale: update loop changed: ' + _u(upd))
     factor = _arith(_Rename(mp2).visit(__import__('copy').deepcopy(upd.body[0].value)),
                     {'default_bond': 'default_bond', 'avg_dist': 'avg_dist'})
-    if _u(ret) != 'return pos':
+    return avg_final, factor
+
+
+def rescale_facts(tree):
+    """vespr_layout from `pos = check_and_fix_cis_trans(graph, pos)` to the end: EVERY statement must be one of
+       - the alignment block (TAlign: rigid motion of all positions),
+       - the four statements of the rescale step (TRescale; exactly once),
+       - the final `return pos`.
+    Anything else between the cis/trans correction and the return (e.g. a step that moves atoms after the
+    rescale) leaves the modelled shape: fail closed."""
+    fn = _fn(tree, 'vespr_layout')
+    args = [a.arg for a in fn.args.args]
+    if args != ['graph', 'default_bond', 'align_with'] or fn.args.vararg or fn.args.kwarg or fn.args.kwonlyargs:
+        raise Unsupported('vespr_layout arguments %r' % args)
+    body = _strip_doc(fn.body)
+    lines = [_u(s) for s in body]
+    if lines.count('pos = check_and_fix_cis_trans(graph, pos)') != 1:
+        raise Unsupported('vespr_layout: check_and_fix_cis_trans call not found (exactly once, at top level)')
+    k = lines.index('pos = check_and_fix_cis_trans(graph, pos)')
+    if k == 0 or not lines[k - 1].startswith('pos = nx.kamada_kawai_layout(graph'):
+        raise Unsupported('vespr_layout: the cis/trans correction does not follow the kamada_kawai_layout call')
+    tail = body[k + 1:]
+    if not tail or _u(tail[-1]) != 'return pos':
         raise Unsupported('vespr_layout does not end in `return pos`')
-    # what comes before: positions from Kamada-Kawai, then the cis/trans correction, optional alignment
-    pre = [_u(s) for s in body[:-5]]
-    if not any(p.startswith('pos = nx.kamada_kawai_layout(graph') for p in pre):
-        raise Unsupported('vespr_layout: kamada_kawai_layout call not found')
-    if 'pos = check_and_fix_cis_trans(graph, pos)' not in pre:
-        raise Unsupported('vespr_layout: check_and_fix_cis_trans call not found')
+    tail = tail[:-1]
+    steps, res, i = [], None, 0
+    while i < len(tail):
+        st = tail[i]
+        if _align_block(st):
+            steps.append('TAlign')
+            i += 1
+        elif isinstance(st, ast.Assign) and _u(st.value) == '0' and i + 4 <= len(tail):
+            if res is not None:
+                raise Unsupported('vespr_layout: more than one rescale step')
+            res = _rescale_group(tail[i:i + 4])
+            steps.append('TRescale')
+            i += 4
+        else:
+            raise Unsupported('vespr_layout: statement after the cis/trans correction outside the modelled '
+                              'steps (alignment block, rescale step, return): ' + _u(st).split('\n')[0])
+    if res is None:
+        raise Unsupported('vespr_layout: rescale step not found')
     d = fn.args.defaults
     names = [a.arg for a in fn.args.args][-len(d):] if d else []
     defaults = dict(zip(names, d))
     if not (isinstance(defaults.get('align_with'), ast.Constant) and defaults['align_with'].value is None):
         raise Unsupported('vespr_layout: align_with default is not None')
-    return avg_final, factor
+    return res[0], res[1], steps
+
+
+ROTATE_BODY = ['positions = positions - origin',
+               'rotated_positions = np.dot(positions, rotation_matrix.T)',
+               'rotated_positions = rotated_positions + origin',
+               'return rotated_positions']
+
+
+def _rot_entry(e):
+    """an entry of the rotation matrix over the carrier: c = np.cos(angle), s = np.sin(angle), unary minus"""
+    t = _u(e)
+    if t == 'np.cos(angle)':
+        return 'c'
+    if t == 'np.sin(angle)':
+        return 's'
+    if isinstance(e, ast.UnaryOp) and isinstance(e.op, ast.USub):
+        return '(nsub o (nzero o) %s)' % _rot_entry(e.operand)
+    raise Unsupported('rotation matrix entry ' + t)
+
+
+def linalg_facts(tree):
+    """linalg_functions.rotate (matrix entries regenerated) and rotate_to_axis (ends in rotate(positions, angle)
+    about the default origin [0, 0]; the angle is third-party arithmetic: transcript)"""
+    fn = _fn(tree, 'rotate')
+    if [a.arg for a in fn.args.args] != ['positions', 'angle', 'origin']:
+        raise Unsupported('rotate arguments')
+    if len(fn.args.defaults) != 1 or _u(fn.args.defaults[0]) != 'np.array([0, 0])':
+        raise Unsupported('rotate: default origin is not np.array([0, 0])')
+    body = _strip_doc(fn.body)
+    if len(body) != 5 or [_u(s) for s in body[:1] + body[2:]] != ROTATE_BODY:
+        raise Unsupported('rotate: statements changed')
+    m = body[1]
+    if not (isinstance(m, ast.Assign) and _u(m.targets[0]) == 'rotation_matrix' and isinstance(m.value, ast.Call)
+            and _u(m.value.func) == 'np.array' and len(m.value.args) == 1 and not m.value.keywords
+            and isinstance(m.value.args[0], ast.List) and len(m.value.args[0].elts) == 2
+            and all(isinstance(r, ast.List) and len(r.elts) == 2 for r in m.value.args[0].elts)):
+        raise Unsupported('rotate: rotation matrix is not a 2x2 literal')
+    rows = [[_rot_entry(e) for e in r.elts] for r in m.value.args[0].elts]
+    # np.dot(positions, R.T): row p -> (p . R[0], p . R[1])
+    comp = ['(nadd o (nmul o x %s) (nmul o y %s))' % (r[0], r[1]) for r in rows]
+    fn2 = _fn(tree, 'rotate_to_axis')
+    if [a.arg for a in fn2.args.args] != ['positions', 'align_with'] or fn2.args.defaults:
+        raise Unsupported('rotate_to_axis arguments')
+    b2 = _strip_doc(fn2.body)
+    if [_u(s) for s in b2[-2:]] != ['rotated_positions = rotate(positions, angle)', 'return rotated_positions']:
+        raise Unsupported('rotate_to_axis does not end in rotate(positions, angle)')
+    for s in b2[:-2]:
+        if not isinstance(s, ast.Assign):
+            raise Unsupported('rotate_to_axis: statement ' + _u(s))
+        for n in ast.walk(s):
+            if isinstance(n, ast.Name) and isinstance(n.ctx, ast.Store) and n.id in ('positions', 'rotate', 'np'):
+                raise Unsupported('rotate_to_axis rebinds ' + n.id)
+            if isinstance(n, (ast.Subscript, ast.Attribute)) and isinstance(n.ctx, ast.Store):
+                raise Unsupported('rotate_to_axis stores into ' + _u(n))
+    return '(%s, %s)' % (comp[0], comp[1])
 
 
 def rotate_facts(tree):
@@ -317,7 +427,7 @@ def rotate_facts(tree):
 
 
 @gen.target('GeomGen', ['cgsmiles/coordinates.py', 'cgsmiles/rdkit.py', 'cgsmiles/graph_layout.py',
-                        'cgsmiles/graph_layout_utils.py'])
+                        'cgsmiles/graph_layout_utils.py', 'cgsmiles/linalg_functions.py'])
 def gen_geom(trees):
     mode = forward_map_facts(trees['cgsmiles/coordinates.py'])
     rd = trees['cgsmiles/rdkit.py']
@@ -325,7 +435,8 @@ def gen_geom(trees):
     n2r_index_facts(rd)
     wmode = embed_facts(rd)
     bound = r2n_facts(rd)
-    avg_final, factor = rescale_facts(trees['cgsmiles/graph_layout.py'])
+    avg_final, factor, steps = rescale_facts(trees['cgsmiles/graph_layout.py'])
+    rot_xy = linalg_facts(trees['cgsmiles/linalg_functions.py'])
     rotate_facts(trees['cgsmiles/graph_layout_utils.py'])
     out = 'From CGV Require Import Geom.Num.\n\n'
     out += '(* coordinates.forward_map_molecule: cg_pos = (sum of position*weight) / <denominator> *)\n'
@@ -342,4 +453,10 @@ def gen_geom(trees):
     out += '(* graph_layout.vespr_layout, rescale step, over a generic numeric carrier *)\n'
     out += 'Definition gen_avg_final {M : Type} (o : numops M) (avg_dist n_edges : M) : M := %s.\n' % avg_final
     out += 'Definition gen_scale_factor {M : Type} (o : numops M) (default_bond avg_dist : M) : M := %s.\n' % factor
+    out += '\n(* graph_layout.vespr_layout from the cis/trans correction to `return pos`: the steps, in source order *)\n'
+    out += 'Inductive tail_step := TAlign | TRescale.\n'
+    out += 'Definition gen_vespr_tail : list tail_step := [%s].\n' % '; '.join(steps)
+    out += '(* linalg_functions.rotate about the origin [0, 0]: one row (x, y) of np.dot(positions, rotation_matrix.T), *)\n'
+    out += '(* c = np.cos(angle), s = np.sin(angle) *)\n'
+    out += 'Definition gen_rot_xy {M : Type} (o : numops M) (c s x y : M) : M * M := %s.\n' % rot_xy
     return out
